@@ -19,6 +19,11 @@ GOENV = dict(os.environ, GOFLAGS="-mod=mod", GOPROXY="off", GOSUMDB="off", GOTOO
              CGO_ENABLED=os.environ.get("CGO_ENABLED", "1"))
 NCPU = os.cpu_count() or 4
 
+# properties whose harness runner needs the Go race detector: a second binary bin/harness-race is
+# built with -race and used for them (GORACE sends the runtime's reports to <workdir>/race.<pid>,
+# where the runner picks them up and turns them into monitor failures)
+RACE_PROPS = {"C13", "C14"}
+
 FORBIDDEN = re.compile(r"\b(Admitted|admit|Axiom|Axioms|Parameter|Parameters|Conjecture|Admit Obligations)\b|"
                        r"Unset Guard Checking|Unset Positivity Checking|Unset Universe Checking|bypass_check|"
                        r"-type-in-type|-impredicative-set")
@@ -182,25 +187,32 @@ def print_assumptions(prop, names, workdir):
 
 # ---------------------------------------------------------------------------------------------
 # harness
-def build_harness(log):
+def build_harness(log, race=False):
     hd = os.path.join(ROOT, "harness")
     rc, out = sh([sys.executable, os.path.join(ROOT, "tools", "mkgomod.py"), hd], env=GOENV)
     if rc != 0:
         return "mkgomod failed: " + out
-    rc, out = sh(["go", "build", "-tags", "verif", "-o", os.path.join(BIN, "harness"), "."], cwd=hd, env=GOENV, timeout=1800)
+    cmd = ["go", "build", "-tags", "verif", "-o", os.path.join(BIN, "harness"), "."]
+    if race:
+        cmd = ["go", "build", "-race", "-tags", "verif", "-o", os.path.join(BIN, "harness-race"), "."]
+    rc, out = sh(cmd, cwd=hd, env=GOENV, timeout=1800)
     log.write(out + "\n")
     if rc != 0:
-        return "harness (or /repo with -tags verif) does not build:\n" + out[-3000:]
+        return "harness (or /repo with -tags verif) does not build%s:\n" % (" with -race" if race else "") + out[-3000:]
     return None
 
 
 def run_harness(prop, seed, tier, workdir, log, extra=None, timeout=3000):
-    cmd = [os.path.join(BIN, "harness"), "-prop", prop, "-seed", str(seed), "-tier", tier, "-out", workdir]
+    race = prop in RACE_PROPS
+    cmd = [os.path.join(BIN, "harness-race" if race else "harness"), "-prop", prop, "-seed", str(seed), "-tier", tier, "-out", workdir]
     if extra:
         cmd += extra
+    env = GOENV
+    if race:
+        env = dict(GOENV, GORACE="halt_on_error=0 exitcode=0 log_path=%s/race" % workdir)
     with open(os.path.join(workdir, "harness.out"), "w") as fh:
         try:
-            p = subprocess.run(cmd, stdout=fh, stderr=subprocess.STDOUT, timeout=timeout, env=GOENV)
+            p = subprocess.run(cmd, stdout=fh, stderr=subprocess.STDOUT, timeout=timeout, env=env)
             rc = p.returncode
         except subprocess.TimeoutExpired:
             rc = -9
@@ -312,7 +324,7 @@ def main():
             else:
                 discharged = len([n for n in obligations if n in assumptions])
         # 3. harness
-        err = build_harness(log)
+        err = build_harness(log, race=prop in RACE_PROPS)
     res = None
     mism, case_errs = [], []
     if err:
